@@ -16,7 +16,7 @@ MANIFEST = dict(
          "silence when only foreign bits change; over any history of watch/unwatch/patch the observer list never holds duplicates and every call "
          "carries old != new (induction). Tie: translator for the intersection filter + differential correspondence of both real structure classes "
          "(GeckoStructure, GeckoAsyncStructure) with recording observers against the model driver."
-         ' Since session 3: histories include bound-method observers (equal, not identical), wholesale loads (set_status_block) followed by patches, and updates that flip the temperature unit under watched temperature items. State inventory (notification_state_inventory): status_block_changed and the value decoders write no attribute; both structures write only the block. Observers that change the registration list from inside their callback (unwatch themselves or others, unwatch_all, watch): dispatch model Model/ObserverDispatch.lean, theorems C03.Reentrant.*, real structures of both classes. Session 5: notification_walk_keeps_no_state (Observable._on_change / watch / unwatch assign nothing); the smallest change of a stored number (one or two steps, whole field / low byte / window), which a presentation coarser than the stored reading would swallow. Round 14: one GeckoAsyncSpa object connected, disconnected and connected again (real `_connect` wiring); the spa changes watched items on every connection. Round 15: observers of a second blocking session; observers read the other polled items from inside their callback (the client having polled them before the update) and must see the installed block through every item.',
+         ' Since session 3: histories include bound-method observers (equal, not identical), wholesale loads (set_status_block) followed by patches, and updates that flip the temperature unit under watched temperature items. State inventory (notification_state_inventory): status_block_changed and the value decoders write no attribute; both structures write only the block. Observers that change the registration list from inside their callback (unwatch themselves or others, unwatch_all, watch): dispatch model Model/ObserverDispatch.lean, theorems C03.Reentrant.*, real structures of both classes. Session 5: notification_walk_keeps_no_state (Observable._on_change / watch / unwatch assign nothing); the smallest change of a stored number (one or two steps, whole field / low byte / window), which a presentation coarser than the stored reading would swallow. Round 14: one GeckoAsyncSpa object connected, disconnected and connected again (real `_connect` wiring); the spa changes watched items on every connection. Round 15: observers of a second blocking session; observers read the other polled items from inside their callback (the client having polled them before the update) and must see the installed block through every item. Round 16: histories in which an item is watched, left without observers during a change, and watched again (identical refresh stays silent, a change back to the value reported last fires); blocking_declarations_are_made_for_each_connection.',
     note="Trusted: Lean kernel; translator; correspondence harness. Temperature items: the model compares stored words, the code compares values converted "
          "with the current unit (equivalent; the conversion itself is C14). An observer that raises aborts the remaining notifications (Python semantics) - excluded. "
          "Patches running past byte 1023 are outside the hypotheses (the real code would grow the block).",
@@ -199,6 +199,14 @@ def gen_ops(rng, items, n_ops):
             ops.append(("patch", off, bytes(rng.randrange(256) for _ in range(rng.randrange(1, min(60, 1024 - off) + 1))), "random"))
         else:            # full / window refresh with a few changed bytes
             ops.append(("refresh", rng.choice([(0, 1024), (256, 480)]), rng.randrange(0, 6), "refresh"))
+    # ---- an item that is watched, left alone for a while, and watched again: watch, a change, every observer removed, a change nobody
+    #      watches, watch again, an identical refresh (silent), a change BACK to the value reported last (fires, old = the unwatched value)
+    nums_ = [it for it in watched if it["kind"] not in ("temp",) and it["bitpos"] is None and it["len"] in (1, 2)][:3]
+    for it in nums_:
+        k = it["key"]
+        ops += [("unwatchall", k), ("watch", k, 7), ("step", k, 1, "field", "rewatch"), ("unwatchall", k), ("step", k, 1, "field", "rewatch"),
+                ("watch", k, 7), ("same", it["pos"], it["len"], "rewatch"), ("step", k, -1, "field", "rewatch"), ("step", k, 3, "field", "rewatch"),
+                ("unwatch", k, 7), ("step", k, -3, "field", "rewatch"), ("watch", k, 6), ("step", k, 3, "field", "rewatch")]
     return ops
 
 
